@@ -36,8 +36,24 @@ def layer_forward(a):
     adjacency = mk_matrix(a['adjacency'])
     features = _features(a['features'])
     layer = _layer(a)
+    before = (adjacency.indptr.copy(), adjacency.indices.copy(), adjacency.data.copy()) if sparse.issparse(adjacency) else None
     out = layer(adjacency, features)
-    return {'output': np.asarray(out).tolist(), 'embedding': np.asarray(layer.embedding).tolist()}
+    res = {'output': np.asarray(out).tolist(), 'embedding': np.asarray(layer.embedding).tolist()}
+    if before is not None:
+        # a network hands ONE adjacency object to every layer: a second layer (normalisation 'both', same weights) applied
+        # to the object the first layer has just seen must give what it gives on a fresh copy
+        res['adjacency_unchanged'] = bool(np.array_equal(before[0], adjacency.indptr) and np.array_equal(before[1], adjacency.indices)
+                                          and np.array_equal(before[2], adjacency.data))
+        try:
+            other = dict(a, norm='both' if a['norm'] != 'both' else 'right')
+            l2, l3 = _layer(other), _layer(other)
+            second = np.asarray(l2(adjacency, features))
+            fresh = np.asarray(l3(mk_matrix(a['adjacency']), _features(a['features'])))
+            res['second_layer_same_object'] = second.tolist()
+            res['second_layer_fresh'] = fresh.tolist()
+        except Exception as e:  # noqa
+            res['second_layer_error'] = type(e).__name__
+    return res
 
 
 def _fd(f, x, h=1e-6):
